@@ -379,11 +379,11 @@ Definition depth_next (adaptive : bool) (max_depth max_stag cur stagn : Z) : Z *
 (* PopulationalOptimizer.get_structure_unique_population: size of the population handed to the
    evaluator when `unique` structurally distinct individuals remain:
      min_pop_size = min(MIN_POP_SIZE, max_pop_size) if max_pop_size else MIN_POP_SIZE
-     if len(unique) < min_pop_size: extend to min_pop_size *)
+     if unique and len(unique) < min_pop_size: extend to min_pop_size   (an empty population stays empty) *)
 Definition diversity_target (maxp : option Z) : Z :=
   match truthy_max maxp with Some m => Z.min MIN_POP_SIZE m | None => MIN_POP_SIZE end.
 Definition diversity_refill (maxp : option Z) (unique : Z) : Z :=
-  if Z.ltb unique (diversity_target maxp) then diversity_target maxp else unique.
+  if Z.ltb 0 unique && Z.ltb unique (diversity_target maxp) then diversity_target maxp else unique.
 (* before the repair dbd27a2 the refill ignored max_pop_size *)
 Definition diversity_refill_pinned (unique : Z) : Z :=
   if Z.ltb unique MIN_POP_SIZE then MIN_POP_SIZE else unique.
@@ -738,6 +738,7 @@ Record orun := {
   r_maxpop : option Z;
   r_adaptive : bool;               (* parameter_free scheme of the genetic optimisers *)
   r_ok : bool;                     (* optimise() returned *)
+  r_timed_out : bool;              (* the watchdog of the harness had to stop optimise() *)
   r_limit_raise : bool;            (* optimise() raised from inside the limit machinery: stop condition,
                                       timer, size / depth schedules, iterator *)
   r_pops : list opop;              (* populational: one entry per recorded population *)
@@ -785,7 +786,7 @@ Definition count_evolved (ps : list opop) : nat := List.length (filter is_evolve
 
 Definition ragree (r : orun) : bool :=
   let l := r_lim r in
-  if negb (r_ok r) then true else
+  if negb (r_ok r) || r_timed_out r then true else
   if r_populational r then
     counters_ok 0 0 (r_pops r)
     (* every evolve step was started after a stop test that answered False *)
@@ -857,11 +858,15 @@ Definition h_adaptive (r : orun) : bool :=
        end) (r_pops r)
   else true.
 
+(* the run ended within the (generous) wall-time bound of the harness watchdog *)
+Definition h_terminates (r : orun) : bool := negb (r_timed_out r).
+
 Definition rholds (r : orun) : bool :=
-  h_accepts r && h_generations r && h_stagnation r && h_time r && h_zero_budget r && h_max_pop r && h_adaptive r.
+  h_terminates r && h_accepts r && h_generations r && h_stagnation r && h_time r && h_zero_budget r && h_max_pop r && h_adaptive r.
 
 Definition rcheck (r : orun) : list bool :=
-  [ragree r; h_accepts r; h_generations r; h_stagnation r; h_time r; h_zero_budget r; h_max_pop r; h_adaptive r].
+  [ragree r; h_accepts r; h_generations r; h_stagnation r; h_time r; h_zero_budget r; h_max_pop r; h_adaptive r;
+   h_terminates r].
 
 (* ---- observed GOLEM(...) facade ---- *)
 Record oapi := {
